@@ -200,6 +200,14 @@ def _ConstRandom(value=0.5):
     return simrandom.Stream({'mode': 'constant'})
 
 
+def _reseed_global_prng():
+    """Should the code under test draw its random keys from somewhere else than penman.model.random (where the
+    constant stream sits), it draws from the interpreter-wide PRNG: tool run and library reference then start
+    from the same state, so that bypassing the seam is not mistaken for a difference between the two."""
+    import random as _random
+    _random.seed(20261001)
+
+
 def uses_random(opts):
     return 'random' in (opts.get('rearrange') or []) or 'random' in (opts.get('reconfigure') or [])
 
@@ -235,6 +243,7 @@ def run_tool(spec, opts, stdin, texts, trace, k, res, tag):
     rnd = _ConstRandom() if uses_random(opts) else None
     if rnd:
         pmodel.random = rnd
+        _reseed_global_prng()
     try:
         r = cli.run_cli(argv, stdin_bytes=stdin_bytes, files=files, plans=plans,
                         stdin_plan=trace.get('read_plan'), stdout_plan=trace.get('write_plan'), counters=k,
@@ -254,6 +263,7 @@ def ref_run(texts, model, opts):
     rnd = _ConstRandom() if uses_random(opts) else None
     if rnd:
         pmodel.random = rnd
+        _reseed_global_prng()
     try:
         return cli_pipeline.run(texts, model, opts), None
     except Exception as e:
